@@ -110,6 +110,13 @@ def readers(ctx, idx, rule):
         else:
             ctx.hold(rule, con, d.module.rel, good[0][0], "mask from `data == %s` stored on the returned array" % miss_params[0])
         R.zero_is_a_value(ctx, rule, d, r)
+        # a reader whose source delivers its own mask (a NetCDF variable with _FillValue) keeps that mask as well
+        for v in rets:
+            if "file" in v.D:
+                keeps = "file" in v.M
+                ctx.ob(rule, "%s.execute::file-mask-kept" % d.key, d.module.rel, d.execute.node.lineno, keeps,
+                       "the file's own missing cells stay missing (union with the missing-value mask)" if keeps else
+                       "the mask assigned to the returned array replaces the mask the file itself delivers: cells the file marks missing (_FillValue) come out as ordinary numbers whenever a missing value is given")
         for w in r.writes:
             if "self" in w.alias:
                 ctx.violate(rule, "%s.execute::mask-on-self" % d.key, d.module.rel, w.line, "the mask is stored through `self` (%s), not on the returned local" % w.what)
